@@ -1873,3 +1873,133 @@ func checkLastFallibleStep(c *core.Ctx, r *core.Rule, prog *core.Prog, pkgPath, 
 		r.Undecided("anchor:"+fnName+":"+stepSuffix, c.Pos(fn.Pos()), "no call of the step found")
 	}
 }
+
+// ---------------------------------------------------------------- root components are parsed in the root context (C07)
+
+// rootCtxExceptions: functions of the OpenAPI parser that read rootLoc and still hand on a caller's resolve context.
+var rootCtxExceptions = map[string]string{
+	"ogen/openapi/parser.parser.parseOp": "rootLoc is only the parent of the document-level `security` list used when the operation has none of its own; the context is the operation's and travels with the requirement list, whose scheme entries are looked up by parseSecurityRequirementScheme in a root context of its own",
+}
+
+// checkRootComponentsInRootCtx: a function that addresses nodes of the root document (it builds locations from
+// parser.rootLoc) parses what it finds there relative to the root document: every *jsonpointer.ResolveCtx it hands to a
+// callee is the result of parser.resolveCtx() — not a context it was given, which belongs to whatever file the caller is
+// working in. With a foreign context a `$ref` inside a root component (a security scheme referenced from an operation
+// that lives in another file) is resolved against that other file: referencing stops being the same as inlining.
+func checkRootComponentsInRootCtx(c *core.Ctx, r *core.Rule, prog *core.Prog) {
+	sp := prog.ByPath[pkgParser]
+	if sp == nil {
+		r.Undecided("load:openapi/parser", "-", "package not loaded")
+		return
+	}
+	isCtx := func(t types.Type) bool {
+		p, ok := t.Underlying().(*types.Pointer)
+		if !ok {
+			return false
+		}
+		n, ok := types.Unalias(p.Elem()).(*types.Named)
+		return ok && n.Obj().Name() == "ResolveCtx" && n.Obj().Pkg() != nil && strings.HasSuffix(n.Obj().Pkg().Path(), "/jsonpointer")
+	}
+	n := 0
+	for _, top := range core.PkgFuncs(prog.SSA, sp) {
+		readsRootLoc := false
+		for _, fn := range core.AllFuncs(top) {
+			for _, b := range fn.Blocks {
+				for _, in := range b.Instrs {
+					if fa, ok := in.(*ssa.FieldAddr); ok && fieldName(fa.X.Type(), fa.Field) == "rootLoc" {
+						readsRootLoc = true
+					}
+				}
+			}
+		}
+		if !readsRootLoc {
+			continue
+		}
+		key := fnKeyFull(top)
+		for _, fn := range core.AllFuncs(top) {
+			for _, call := range core.Calls(fn) {
+				for _, a := range call.Common().Args {
+					if !isCtx(a.Type()) {
+						continue
+					}
+					n++
+					if isRootCtxValue(a, fn, 0) {
+						r.Pass(fmt.Sprintf("%s hands a root context to %s", key, core.CalleeName(call.Common())))
+						continue
+					}
+					if why, ok := rootCtxExceptions[key]; ok {
+						r.Justified++
+						r.Pass(fmt.Sprintf("%s hands on its caller's context (reviewed): %s", key, why))
+						continue
+					}
+					r.Fail("root-node-foreign-ctx:"+key, c.Pos(call.Pos()), fmt.Sprintf("%s addresses nodes of the root document (it reads rootLoc) but hands %s a resolve context that is not parser.resolveCtx(): a $ref inside the root component is resolved against the file the caller happens to be in", key, core.CalleeName(call.Common())))
+				}
+			}
+		}
+	}
+	if n == 0 {
+		r.Undecided("anchor:rootLoc-ctx", "-", "no function of openapi/parser both reads rootLoc and passes a resolve context")
+	}
+}
+
+
+// isRootCtxValue: v is the result of parser.resolveCtx(), directly or through a local variable (also one captured by
+// a closure) that is only ever assigned such results.
+func isRootCtxValue(v ssa.Value, fn *ssa.Function, depth int) bool {
+	if depth > 4 {
+		return false
+	}
+	cell := func(al *ssa.Alloc) bool {
+		n := 0
+		for _, ref := range *al.Referrers() {
+			if st, ok := ref.(*ssa.Store); ok && st.Addr == ssa.Value(al) {
+				n++
+				if !isRootCtxValue(st.Val, al.Parent(), depth+1) {
+					return false
+				}
+			}
+		}
+		return n > 0
+	}
+	switch x := v.(type) {
+	case *ssa.Call:
+		return strings.HasSuffix(core.CalleeName(x.Common()), "parser).resolveCtx")
+	case *ssa.Phi:
+		for _, e := range x.Edges {
+			if !isRootCtxValue(e, fn, depth+1) {
+				return false
+			}
+		}
+		return len(x.Edges) > 0
+	case *ssa.UnOp:
+		if x.Op != token.MUL {
+			return false
+		}
+		switch y := x.X.(type) {
+		case *ssa.Alloc:
+			return cell(y)
+		case *ssa.FreeVar:
+			// the cell the enclosing function bound to this free variable
+			parent := fn.Parent()
+			if parent == nil {
+				return false
+			}
+			idx := -1
+			for i, fv := range fn.FreeVars {
+				if fv == y {
+					idx = i
+				}
+			}
+			for _, b := range parent.Blocks {
+				for _, in := range b.Instrs {
+					if mc, ok := in.(*ssa.MakeClosure); ok && mc.Fn == ssa.Value(fn) && idx >= 0 && idx < len(mc.Bindings) {
+						if al, ok := mc.Bindings[idx].(*ssa.Alloc); ok {
+							return cell(al)
+						}
+					}
+				}
+			}
+		}
+	}
+	return false
+}
